@@ -11,6 +11,7 @@ import (
 	"time"
 
 	"github.com/ipfs/go-cid"
+	"github.com/ipld/go-ipld-prime/datamodel"
 
 	"github.com/ucan-wg/go-ucan/pkg/args"
 	"github.com/ucan-wg/go-ucan/pkg/container"
@@ -542,7 +543,7 @@ func roundTripMonitor(o *Outcome, obj token.Token, sealed []byte, sealCID cid.Ci
 	if guard(o, "token.FromSealed", func() { gen, gcid, err = token.FromSealed(sealed) }) {
 		return
 	}
-	attrs := map[string]string{"alg": alg, "codec": "dag-cbor", "type": kind}
+	attrs := map[string]string{"alg": alg, "codec": "dag-cbor", "type": kind, "null_value": fmt.Sprint(hasTopLevelNull(obj))}
 	if err != nil {
 		o.Violate("C07", "unseal-failed", fmt.Sprintf("%s token sealed by a %s key cannot be unsealed: %v", kind, alg, err), attrs)
 		return
@@ -585,6 +586,17 @@ func roundTripMonitor(o *Outcome, obj token.Token, sealed []byte, sealCID cid.Ci
 		o.Violate("C07", "typed-decoder-disagrees", "generic vs typed: "+d, attrs)
 	}
 	o.Sig("C07", kind, alg, "dag-cbor", len(orig.Meta), len(orig.Args), orig.Nbf != "-", orig.Exp != "-", orig.Iat != "-", orig.Cause != "-", orig.Aud != "-", orig.Sub != "-")
+}
+
+// hasTopLevelNull: an argument or metadata entry whose value is null.
+func hasTopLevelNull(tk token.Token) bool {
+	x := rawOf(tk)
+	for _, v := range append(append([]datamodel.Node{}, x.metaV...), x.argsV...) {
+		if v != nil && v.Kind() == datamodel.Kind_Null {
+			return true
+		}
+	}
+	return false
 }
 
 func (w *worldExec) delegate(s *DlgSpec) {
